@@ -56,12 +56,14 @@ inductive Reason
   | largeLiteral           -- Java: a literal that does not fit `int` / a size field wider than 32 bits
   | childWithoutMembers    -- Java: a child declaration without any named field or payload of its own
   | hugeCount              -- Rust: a static array count of 2^31 or more (`for _ in 0..N` is typed `i32`)
+  | typeParamName          -- Java: a declaration with a payload whose class is named `B`, the builders' type parameter
+  | nestedPayloadSize      -- C++: a child and one of its ancestors both declare `_size_(_payload_ / _body_)` (member `payload_size_` twice)
 deriving DecidableEq, Repr
 
 def Reason.uncompilable : Reason → Bool
   | .sizeAfterArray | .payloadBeforeDynamic | .elementSizeOfScalars | .constraintOnOptional
   | .payloadlessParent | .fixedOnRangeTag | .constraintOnDefaultTag | .emptyPacket | .structWithPayload
-  | .arrayModifierNoSize | .enumFirstTagNotValue | .sizeOfBody | .largeLiteral | .childWithoutMembers | .hugeCount => true
+  | .arrayModifierNoSize | .enumFirstTagNotValue | .sizeOfBody | .largeLiteral | .childWithoutMembers | .hugeCount | .nestedPayloadSize | .typeParamName => true
   | _ => false
 
 def Reason.base : Reason → String
@@ -77,7 +79,7 @@ def Reason.base : Reason → String
   | .constraintOnDefaultTag => "constraintOnDefaultTag" | .emptyPacket => "emptyPacket"
   | .structWithPayload => "structWithPayload" | .arrayModifierNoSize => "arrayModifierNoSize"
   | .enumFirstTagNotValue => "enumFirstTagNotValue" | .sizeOfBody => "sizeOfBody" | .largeLiteral => "largeLiteral"
-  | .childWithoutMembers => "childWithoutMembers" | .hugeCount => "hugeCount"
+  | .childWithoutMembers => "childWithoutMembers" | .hugeCount => "hugeCount" | .nestedPayloadSize => "nestedPayloadSize" | .typeParamName => "typeParamName"
 
 def Reason.name (r : Reason) : String := if r.uncompilable then "uncompilable:" ++ r.base else r.base
 
@@ -431,7 +433,8 @@ def pre (t : Target) (f : File) : List Reason :=
     when (constraintOnDefault f) .constraintOnDefaultTag ++
     when (forwardArray f true) .forwardArrayType ++
     when (constraintOnOpt f) .constraintOnOptional ++
-    when (zeroWidths f false) .zeroWidth
+    when (zeroWidths f false) .zeroWidth ++
+    when ((packets f).any fun d => hasPayloadSize d.fields && (ancestors f d).any fun a => hasPayloadSize a.fields) .nestedPayloadSize
   | .java =>
     when (widthsOver f 64 false true) .scalarTooWide ++
     when (enumArrayOdd f) .enumArrayUnaligned ++
@@ -447,7 +450,8 @@ def pre (t : Target) (f : File) : List Reason :=
     when ((packets f).any fun d => d.parent?.isSome && !(d.fields.any fun fl => fl.id?.isSome || isPayload fl)) .childWithoutMembers ++
     when (fixedOnNonValue f) .fixedOnRangeTag ++
     when (constraintOnDefault f) .constraintOnDefaultTag ++
-    when (shadows' f) .shadowedField
+    when (shadows' f) .shadowedField ++
+    when ((packets f).any fun d => (d.id? == some "B" || d.id? == some "b") && hasPayload d) .typeParamName
 where
   shadows' (f : File) : Bool := (packets f).any (shadows f)
 
